@@ -211,6 +211,11 @@ M = [
         let _ = self.broadcast_tx.send(frame.clone());
         #[cfg(feature = "verif")]
         crate::verif::sync_point("append.broadcast", Some(&frame.id));''', ['C02', 'C03'], 'broadcast outside the append lock'),
+ ('D41', 'C11', 'store/mod.rs', '''                        tokio::select! {
+                            _ = &mut live_done_rx => break,
+                            _ = tokio::time::sleep(duration) => {}
+                        }''', '''                        let _ = &mut live_done_rx;
+                        tokio::time::sleep(duration).await;''', ['C11'], 'heartbeats never stop after the live task ended (lagged / limit reached)'),
 ]
 
 
